@@ -27,7 +27,12 @@ HasDeserialize(cfg) == "serde" \in cfg /\ "decode" \in cfg
 
 Rec == ndJsonDeserialize(IOEnv.TRACE)
 CfgOf(e) == {e.cfg[i] : i \in 1..Len(e.cfg)}
+\* within ONE build: the corpus registered a second time in a fresh registry gives the same bytes as the first time
+SelfOK(a) == a.secondfull = a.full /\ a.secondnodocs = a.nodocs
 Agree(a, b) ==
+  /\ SelfOK(a) /\ SelfOK(b)
+  /\ a.revnodocs = b.revnodocs                                                   \* the corpus in the opposite order, third registry of the process
+  /\ (("docs" \in CfgOf(a)) = ("docs" \in CfgOf(b))) => a.revfull = b.revfull
   /\ a.nodocs = b.nodocs                                                         \* docs change docs only
   /\ (("docs" \in CfgOf(a)) = ("docs" \in CfgOf(b))) => a.full = b.full          \* nothing else changes anything
   /\ ("bit-vec" \in CfgOf(a) /\ "bit-vec" \in CfgOf(b)) =>
@@ -36,7 +41,7 @@ Agree(a, b) ==
 VARIABLE l
 Init == l = 1
 \* event l must agree with every earlier event
-Next == l <= Len(Rec) /\ (\A k \in 1..(l-1) : Agree(Rec[k], Rec[l])) /\ l' = l + 1
+Next == l <= Len(Rec) /\ SelfOK(Rec[l]) /\ (\A k \in 1..(l-1) : Agree(Rec[k], Rec[l])) /\ l' = l + 1
 Spec == Init /\ [][Next]_l
 Stutter == UNCHANGED l
 Track == TLCSet(1, l)
